@@ -95,6 +95,101 @@ def _fold_collect_loop(tp, outs):
     return p1, ast.fix_missing_locations(val)
 
 
+def _fold_small_cases(tp, outs):
+    """A combinator printer with guard clauses for few children: when every
+    special path is taken for a known number n of children (0 or 1) and
+    prints what the general `open + infix.join(children) + close` form
+    prints for that n, the general path stands for all of them."""
+    shaped = []
+    for p in outs:
+        try:
+            shaped.append((p, merge(segments(tp.expand(p.outcome.expr)))))
+        except Unknown:
+            return None
+    general = [(p, sg) for p, sg in shaped
+               if sum(isinstance(x, Join) for x in sg) == 1]
+    if len(general) != 1:
+        return None
+    gp, gs = general[0]
+    j = [x for x in gs if isinstance(x, Join)][0]
+    i = gs.index(j)
+    if not all(isinstance(x, Lit) for x in gs[:i] + gs[i + 1:]):
+        return None
+    op = ''.join(x.text for x in gs[:i])
+    cl = ''.join(x.text for x in gs[i + 1:])
+    coll = j.iter_text                      # e.g. self.rules
+
+    def about_coll(x):
+        """x is the joined collection, or a 1:1 image of it"""
+        x = tp.expand(x)
+        if U(x) == coll:
+            return True
+        if isinstance(x, (ast.ListComp, ast.GeneratorExp)) and len(
+                x.generators) == 1 and not x.generators[0].ifs and U(
+                    x.generators[0].iter) == coll:
+            return True
+        if isinstance(x, ast.Call) and U(x.func) in ('list', 'tuple') and \
+                len(x.args) == 1:
+            return about_coll(x.args[0])
+        return False
+
+    def count_of(p):
+        n = None
+        for c in p.conds:
+            if c.kind not in ('test', 'loop'):
+                continue
+            e = tp.expand(c.expr)
+            if about_coll(e) and not c.pol:
+                n = 0
+            elif isinstance(e, ast.Call) and U(e.func) == 'len' and len(
+                    e.args) == 1 and about_coll(e.args[0]) and not c.pol:
+                n = 0
+            elif isinstance(e, ast.Compare) and len(e.ops) == 1 and \
+                    isinstance(e.left, ast.Call) and U(e.left.func) == \
+                    'len' and len(e.left.args) == 1 and about_coll(
+                        e.left.args[0]) and is_const(e.comparators[0]):
+                k = e.comparators[0].value
+                if isinstance(e.ops[0], ast.Eq) and c.pol and k in (0, 1):
+                    n = k
+                elif isinstance(e.ops[0], ast.Lt) and c.pol and k == 1:
+                    n = 0
+                elif isinstance(e.ops[0], ast.Lt) and c.pol and k == 2 \
+                        and n is None:
+                    n = None        # 0 or 1: not decided by this alone
+        return n
+
+    def first_of(hole):
+        """the hole prints the first (only) child"""
+        try:
+            x = ast.parse(hole.source, mode='eval').body
+        except SyntaxError:
+            return False
+        if isinstance(x, ast.Call) and U(x.func) == 'str' and len(
+                x.args) == 1:
+            x = x.args[0]
+        return isinstance(x, ast.Subscript) and is_const(
+            x.slice, 0) and about_coll(x.value)
+
+    for p, sg in shaped:
+        if p is gp:
+            continue
+        n = count_of(p)
+        if n == 0:
+            ok = all(isinstance(x, Lit) for x in sg) and ''.join(
+                x.text for x in sg) == op + cl
+        elif n == 1:
+            lits = ''.join(x.text for x in sg if isinstance(x, Lit))
+            holes = [x for x in sg if isinstance(x, Hole)]
+            ok = len(holes) == 1 and first_of(holes[0]) and lits == \
+                op + cl and (not op or (isinstance(sg[0], Lit)
+                                        and sg[0].text == op))
+        else:
+            ok = False
+        if not ok:
+            return None
+    return gp
+
+
 def extract_printers(ctx, classes):
     prog = ctx.prog
     pr = Printer()
@@ -113,11 +208,15 @@ def extract_printers(ctx, classes):
                 and p.outcome.expr is not None]
         folded = _fold_collect_loop(tp, outs) if len(outs) == 2 and len(
             tp.paths) == 2 else None
+        tp_value = None
+        if folded is None and len(outs) > 1 and len(outs) == len(tp.paths):
+            one = _fold_small_cases(tp, outs)
+            if one is not None:
+                outs = [one]
+                folded = (one, None)
         if folded is not None:
             outs = [folded[0]]
             tp_value = folded[1]
-        else:
-            tp_value = None
         if len(outs) != 1 or (len(tp.paths) != 1 and folded is None):
             # a printer whose text depends on conditions: every variant must
             # be the verbatim form, which the single-path case establishes
@@ -483,6 +582,49 @@ def check_dump(ctx):
                     f.module, e.func) or '').endswith(('jsonutils.dumps',
                                                        'json.dumps')):
                 ser_ok = True
+        # two parallel columns paired up again: the names, and a list the
+        # printed forms were appended to while walking the values in the
+        # same order -- dict(zip(<names>, <column>))
+        for z in p.events:
+            if not (z.kind == 'call' and U(z.node.func) == 'dict' and len(
+                    z.node.args) == 1 and not z.node.keywords):
+                continue
+            zz = t.en.defs.get(z.node.args[0].id) if isinstance(
+                z.node.args[0], ast.Name) else z.node.args[0]
+            if not (isinstance(zz, ast.Call) and U(zz.func) == 'zip'
+                    and len(zz.args) == 2 and isinstance(zz.args[1],
+                                                         ast.Name)):
+                continue
+            names = U(t.expand(zz.args[0]))
+            col = zz.args[1].id
+            if names not in ('list(self.keys())', 'self.keys()', 'self',
+                             'list(self)', 'tuple(self.keys())',
+                             'tuple(self)'):
+                continue
+            for e in p.events:
+                if not (e.kind == 'call' and method_call(e.node, 'append')
+                        and U(method_call(e.node)[0]) == col
+                        and len(e.node.args) == 1):
+                    continue
+                is_true = [c for c in p.conds[:e.nconds] if c.kind == 'test'
+                           and isinstance(c.expr, ast.Call) and U(
+                               c.expr.func) == 'isinstance' and prog.resolve(
+                                   f.module, c.expr.args[1]) ==
+                           CHECKS + '.TrueCheck']
+                v = t.expand(e.node.args[0])
+                subj = is_true[0].expr.args[0] if is_true else None
+                d = t.en.defs.get(subj.id) if isinstance(
+                    subj, ast.Name) else None
+                over_values = isinstance(d, tuple) and d[0] == 'elem' and U(
+                    t.expand(d[1])) == 'self.values()'
+                if not over_values:
+                    continue
+                if is_true[0].pol and is_const(v, ''):
+                    true_ok = True
+                if not is_true[0].pol and isinstance(v, ast.Call) and U(
+                        v.func) == 'str' and len(v.args) == 1 and U(
+                            v.args[0]) == U(subj):
+                    other_ok = True
     if not true_ok:
         # every name pre-seeded with '' (dict.fromkeys(self, '')) and the
         # always-allow entries left as they are
